@@ -37,11 +37,13 @@ import Noodles.Bgzf.DriverC16
 import Noodles.Cram.DriverC08
 import Noodles.Cram.DriverC07
 import Noodles.Hostile.Driver
+import Noodles.Csi.DriverC17Reach
 namespace Noodles
 open Noodles.Wire
 
 def dispatch (line : String) : String :=
   match words line with
+  | "c17" :: "reach" :: rest => Csi.Reach.handle rest
   | "c17" :: rest => (Index.handleIndex rest).getD (Csi.handle rest)
   | "c04" :: rest => Csi.handleC04 rest
   | "c01" :: rest => (Bgzf.StoredDrv.handle? rest).getD (Bgzf.handleC01 rest)
